@@ -101,4 +101,6 @@ def install_dirs(context, **kwargs):
         return
     env = context.env
     for k, v in kwargs.items():
-        env.install_dirs[InstallRoot[k]] = Path.ensure(v, Root.absolute)
+        env.install_dirs[InstallRoot[k]] = Path.ensure(
+            v, Root.absolute
+        ).as_directory()
